@@ -33,7 +33,8 @@ impl Statement {
         let mut p = String::new();
         if !self.month_on_earlier_page { p += &format!("{month_line}\n"); }
         for l in &self.pre_text { p += l; p.push('\n'); }
-        p += "Securities Owned\nCombined in (CAD)\n";
+        // text extraction breaks and pads the heading in different places
+        p += ["Securities Owned\nCombined in (CAD)\n", "Securities Owned Combined in (CAD)\n", "Securities Owned Combined in\n(CAD)\n", "Securities Owned Combined\nin (CAD)\n", "Securities  Owned  Combined  in \t(CAD)\n"][(self.month.2 as usize + self.holdings.len() * 3 + self.junk_pages_before) % 5];
         p += "            ALLOCATION (%)² MARKET VALUE ($)³\n\n";
         for h in &self.holdings {
             let n = h.desc_lines.len();
